@@ -212,13 +212,13 @@ KERNELS = [
       bounds={0: (-9999, 9999), 1: (1, 12), 2: (1, 31), 4: (1, 7)}, split=(0, {"quick": 4, "thorough": 16})),
     K("c01::k_date_iso", pre=valid,
       claims=[("L9 Date::iso_week_date == (year of the week's Thursday, ordinal of that week, weekday); iso.date() is the identity", iso_claim)],
-      bounds={0: (-9999, 9999), 1: (1, 12), 2: (1, 31)}, split=(0, {"quick": 8, "thorough": 32})),
+      bounds={0: (-9999, 9999), 1: (1, 12), 2: (1, 31)}, split=(0, 64), tier="thorough", timeout=900),
     K("c01::k_iso_new", pre=lambda a: in_range(a[2], 1, 7),
       claims=[("L9 ISOWeekDate::new Ok iff 1 <= week <= weeks(year) and the date is in range; date(iso) and back are consistent", iso_new_claim)],
-      bounds={0: (-32768, 32767), 1: (-128, 127), 2: (1, 7)}, split=(0, {"quick": 8, "thorough": 32})),
+      bounds={0: (-32768, 32767), 1: (-128, 127), 2: (1, 7)}, split=(0, {"quick": 16, "thorough": 64}), timeout=300),
     K("c01::k_iso_facts", pre=lambda a: in_range(a[2], 1, 7),
       claims=[("ISOWeekDate::{weeks_in_year, in_long_year, days_in_year} == 53 weeks iff Dec 31 is a Thursday, or a Friday in a leap year",
-               lambda a, o: And(o.is_some, Implies(o.some.is_some, And(o.some.some[0].i == If(ref_long_year(a[0]), 53, 52),
+               lambda a, o: And(o.is_some, BoolVal(True) if not o.some.has_variant("Some") else Implies(o.some.is_some, And(o.some.some[0].i == If(ref_long_year(a[0]), 53, 52),
                                                                       o.some.some[1].b == ref_long_year(a[0]),
                                                                       o.some.some[2].i == If(ref_long_year(a[0]), 371, 364)))))],
       bounds={0: (-32768, 32767), 1: (-128, 127), 2: (1, 7)}, split=(0, {"quick": 4, "thorough": 16})),
